@@ -43,6 +43,22 @@ func genSpec(t *rapid.T, minP int) h.RLWESpec {
 		hs := []int{1, n / 4, n / 2, n}
 		s.Xe = h.DistSpec{Kind: "ternaryH", H: hs[rapid.IntRange(0, len(hs)-1).Draw(t, "xeH")]}
 	}
+	// Gaussians whose declared Bound is tight (h.GenDist only draws Bound = 6 Sigma, where the truncation never acts):
+	// Bound/Sigma in {0.5, 1, 1.25, 2, 3, 6} x Sigma in {1, 3.2, 8, 20}, and Bound = 1 whatever Sigma.
+	tight := func(label string) h.DistSpec {
+		sig := []float64{1, 3.2, 8, 20}[rapid.IntRange(0, 3).Draw(t, label+"Sigma")]
+		k := rapid.IntRange(0, 6).Draw(t, label+"Ratio")
+		if k == 6 {
+			return h.DistSpec{Kind: "gauss", Sigma: sig, Bound: 1}
+		}
+		return h.DistSpec{Kind: "gauss", Sigma: sig, Bound: sig * []float64{0.5, 1, 1.25, 2, 3, 6}[k]}
+	}
+	if rapid.IntRange(0, 3).Draw(t, "xeTight") == 0 {
+		s.Xe = tight("xe")
+	}
+	if rapid.IntRange(0, 7).Draw(t, "xsTight") == 0 {
+		s.Xs = tight("xs")
+	}
 	return s
 }
 
@@ -99,7 +115,7 @@ func distClass(d h.DistSpec) string {
 	case "ternaryH":
 		return "tH"
 	}
-	return fmt.Sprintf("g%.1f", d.Sigma)
+	return fmt.Sprintf("g%.1f/b%.2fs", d.Sigma, d.Bound/d.Sigma)
 }
 
 // ---------------------------------------------------------------------------------------------------------------
@@ -221,7 +237,8 @@ func checkSecretDomain(spec h.RLWESpec, s []int64, key string) error {
 // and bounded by 1/2); a ternary variable is bounded by 1, hence sub-Gaussian with parameter 1 (Hoeffding).
 func subGaussSigma(d h.DistSpec) float64 {
 	if d.Kind == "gauss" {
-		return d.Sigma + 0.5
+		// a variable bounded by B is also sub-Gaussian with parameter B (Hoeffding)
+		return math.Min(d.Sigma+0.5, d.AbsBound())
 	}
 	return 1
 }
@@ -404,9 +421,8 @@ func zeroProbLog2(d h.DistSpec, n int) float64 {
 	case "ternaryH":
 		return math.Inf(-1)
 	}
-	// rounded Gaussian: P(0) = P(|g| < 1/(2 sigma)) < 0.4/sigma
-	p0 := math.Min(1, 0.4/d.Sigma)
-	return float64(n) * math.Log2(p0)
+	// rounded truncated Gaussian: exact P(0)
+	return float64(n) * math.Log2(gaussStats(d).p0)
 }
 
 func metaEqual(a, b *rlwe.MetaData) bool {
@@ -531,8 +547,8 @@ func collisionBits(d h.DistSpec, n int) float64 {
 		l2, _ := math.Lgamma(float64(n - hw + 1))
 		return (lg-l1-l2)/math.Ln2 + float64(hw)
 	}
-	// rounded Gaussian: sum p^2 <= 1/(2 sigma sqrt(pi)) + slack
-	return -float64(n) * math.Log2(math.Min(1, 0.3/d.Sigma+0.05))
+	// rounded truncated Gaussian: exact sum of squared probabilities
+	return -float64(n) * math.Log2(gaussStats(d).coll)
 }
 
 // keySparseErr: ring.TernarySampler.ReadAndAdd with a fixed Hamming weight zeroes every unselected coefficient instead
@@ -598,4 +614,43 @@ func errorReused(params rlwe.Parameters, spec h.RLWESpec, lq, lp int, c0, c1 rin
 	dom, _ := centred(qpLimbs(w, lq, lp), qs)
 	b := bigOfFloat(bs)
 	return h.InfNorm(raw).Cmp(b) <= 0 || h.InfNorm(dom).Cmp(b) <= 0, true
+}
+
+// gaussPMF describes lattigo's discrete Gaussian as declared: |g|*Sigma for a standard normal g, rejected unless
+// <= Bound, rounded half up, with a random sign.
+type gaussPMF struct {
+	p0   float64 // P(X = 0)
+	coll float64 // sum_k P(X = k)^2
+	vari float64 // Var X
+}
+
+func gaussStats(d h.DistSpec) gaussPMF {
+	// P(|g| sigma in [a,b)) = erf(b/(sigma sqrt2)) - erf(a/(sigma sqrt2))
+	cdf := func(x float64) float64 { return math.Erf(x / (d.Sigma * math.Sqrt2)) }
+	z := cdf(d.Bound)
+	var out gaussPMF
+	if z <= 0 {
+		return gaussPMF{p0: 1, coll: 1}
+	}
+	for k := 0; ; k++ {
+		lo, hi := float64(k)-0.5, float64(k)+0.5
+		if lo < 0 {
+			lo = 0
+		}
+		if lo > d.Bound {
+			break
+		}
+		if hi > d.Bound {
+			hi = d.Bound
+		}
+		p := (cdf(hi) - cdf(lo)) / z
+		if k == 0 {
+			out.p0 = p
+			out.coll += p * p
+		} else {
+			out.coll += p * p / 2 // two signs, p/2 each
+			out.vari += p * float64(k) * float64(k)
+		}
+	}
+	return out
 }
